@@ -370,7 +370,7 @@ def numpy_call(it, fn, d, e, env, argv, kw, args):
             el = a0.elem
             ax = a0.axis if a0.axis not in (None, "empty") else "?"
             if fn == "concatenate":
-                return el
+                return mark_part(el, False) if a0.axis in ("B", "?1") else el
             if fn == "vstack" and el.sh is not None and len(el.sh) >= 2:
                 return el  # stacking along an existing first axis
             if fn == "vstack" and el.sh is not None and len(el.sh) == 0:
